@@ -242,9 +242,10 @@ fn one_run(log: &mut EvLog, seed: u64, thorough: bool, mode: &str) {
     }));
 
     // ---- fault plan (mode fault): decided after first convergence
-    let faulty = mode == "fault";
+    let vanish = mode == "vanish";    // like fault, but the only disturbance is 1..2 ring-adjacent stations that stop for good (or for long)
+    let faulty = mode == "fault" || vanish;
     let mut fault_phase = 0; // 0 waiting for convergence, 1 injecting, 2 done (FaultsEnd logged)
-    let mut crash: Option<(usize, i64, Option<i64>, bool)> = None; // (station, t_crash_us, t_restart_us, mid_tx)
+    let mut crashes: Vec<(usize, i64, Option<i64>, bool)> = vec![]; // (station, t_crash_us, t_restart_us, mid_tx)
     let mut faults_left = 0usize;
     let mut faults_end_us: i64 = if mode == "race" { *c.joins.iter().max().unwrap() } else { 0 };
     let mut race_end_logged = mode != "race";
@@ -279,28 +280,27 @@ fn one_run(log: &mut EvLog, seed: u64, thorough: bool, mode: &str) {
             race_end_logged = true;
         }
         // ---- crash / restart
-        if let Some((ci, tc, tb, _mid)) = crash {
-            if ci == i {
-                if !st[i].crashed && t >= tc && fault_phase == 1 && st[i].online {
-                    st[i].crashed = true;
-                    let cut = bus.borrow_mut().cut(i, tt);
-                    log.push(json!({"ev":"Offline","st":st[i].addr,"t":tt,"mid_tx":cut}));
-                    last_pop_us = t;
-                    if tb.is_none() {
-                        crash = None;
-                        st[i].next = i64::MAX / 4;
-                        continue;
-                    }
+        if let Some(k) = crashes.iter().position(|c| c.0 == i) {
+            let (_, tc, tb, _mid) = crashes[k];
+            if !st[i].crashed && t >= tc && fault_phase == 1 && st[i].online {
+                st[i].crashed = true;
+                let cut = bus.borrow_mut().cut(i, tt);
+                log.push(json!({"ev":"Offline","st":st[i].addr,"t":tt,"mid_tx":cut}));
+                last_pop_us = t;
+                if tb.is_none() {
+                    crashes.remove(k);
+                    st[i].next = i64::MAX / 4;
+                    continue;
                 }
-                if st[i].crashed {
-                    if let Some(tb) = tb {
-                        if t >= tb {
-                            st[i].crashed = false;
-                            st[i].fdl = mk_station(&c, i);
-                            st[i].phy.reset(tt);
-                            st[i].online = false; // set_online below
-                            crash = None;
-                        }
+            }
+            if st[i].crashed {
+                if let Some(tb) = tb {
+                    if t >= tb {
+                        st[i].crashed = false;
+                        st[i].fdl = mk_station(&c, i);
+                        st[i].phy.reset(tt);
+                        st[i].online = false; // set_online below
+                        crashes.remove(k);
                     }
                 }
             }
@@ -347,6 +347,23 @@ fn one_run(log: &mut EvLog, seed: u64, thorough: bool, mode: &str) {
                 if faulty && fault_phase == 0 && rotations >= 6 {
                     // inject: 1..4 telegram faults on upcoming transmissions, optional crash/restart
                     fault_phase = 1;
+                    if vanish {
+                        // the successor of a random station stops, and (half of the time, with >= 3 stations left)
+                        // the next one in ring order as well - at the same moment or a little later
+                        let mut order: Vec<usize> = (0..n).collect();
+                        order.sort_by_key(|k| st[*k].addr);
+                        let p0 = rng.gen_range(0..n);
+                        let k = if n >= 4 && rng.gen_bool(0.5) { 2 } else { 1 };
+                        let tc = t + rng.gen_range(1..200) * slot_us / 4;
+                        for j in 1..=k.min(n - 1) {
+                            let ci = order[(p0 + j) % n];
+                            let tcj = tc + if j == 2 && rng.gen_bool(0.5) { rng.gen_range(1..40) * slot_us } else { 0 };
+                            let tb = if rng.gen_bool(0.3) { Some(tcj + rng.gen_range(50..600) * slot_us) } else { None };
+                            crashes.push((ci, tcj, tb, true));
+                        }
+                        conv_at = None;
+                        continue;
+                    }
                     let nf = rng.gen_range(1..=4usize);
                     let base = bus.borrow().txs.len();
                     for _ in 0..nf {
@@ -360,7 +377,7 @@ fn one_run(log: &mut EvLog, seed: u64, thorough: bool, mode: &str) {
                         let ci = rng.gen_range(0..n);
                         let tc = t + rng.gen_range(1..400) * slot_us / 4;
                         let tb = if rng.gen_bool(0.6) { Some(tc + rng.gen_range(1..300) * slot_us) } else { None };
-                        crash = Some((ci, tc, tb, true));
+                        crashes.push((ci, tc, tb, true));
                     }
                     conv_at = None;
                 } else if (!faulty || fault_phase == 2) && rotations >= want_rot {
@@ -370,7 +387,7 @@ fn one_run(log: &mut EvLog, seed: u64, thorough: bool, mode: &str) {
         }
         if faulty && fault_phase == 1 {
             let pending = bus.borrow().fault_at.len();
-            if pending == 0 && crash.is_none() && !st.iter().any(|s| s.crashed && s.next < i64::MAX / 8) {
+            if pending == 0 && crashes.is_empty() && !st.iter().any(|s| s.crashed && s.next < i64::MAX / 8) {
                 let _ = faults_left;
                 fault_phase = 2;
                 faults_end_us = t;
